@@ -103,6 +103,8 @@ class Kernel:
     def __init__(self, name, ret, args, body, key=None, mode="ub", family=None, std=None, native=True):
         self.std = std
         self.native = native          # False: closed compile-time facts; no native build / translator validation
+        self.prelude = None           # optional per-kernel prelude override (used when kernels of several checks are mixed)
+        self.variant = None           # optional {"id":..., "includes":..., "inc_dirs":[...]} build configuration (C20)
         self.name = name
         self.ret = ret
         self.args = list(args)        # [(ctype, argname)]
@@ -168,7 +170,10 @@ class Chunk:
         self.runners = {}
 
     def write(self):
-        head = PRELUDE_HEAD % {"includes": self.includes} + self.prelude + "\n"
+        if getattr(self, "bare", False):
+            head = self.includes + '\n#define EXPORT extern "C" __attribute__((noinline))\n'
+        else:
+            head = PRELUDE_HEAD % {"includes": self.includes} + self.prelude + "\n"
         lines = head.split("\n")
         self.line_of = {}
         for k in self.kernels:
@@ -550,16 +555,26 @@ class Check:
     def make_chunks(self, kernels):
         includes = self.includes if self.includes is not None else std_includes()
         by_mode = {}
+        variants = {}
+        preludes = {}
         for k in kernels:
-            by_mode.setdefault((k.mode, k.std or self.std, k.native), []).append(k)
+            vid = k.variant["id"] if k.variant else ""
+            if k.variant:
+                variants[vid] = k.variant
+            pre = self.prelude if k.prelude is None else k.prelude
+            ph = hashlib.sha1(pre.encode()).hexdigest()[:8]
+            preludes[ph] = pre
+            by_mode.setdefault((k.mode, k.std or self.std, k.native, vid, ph), []).append(k)
         chunks = []
-        for (mode, std, native), ks in sorted(by_mode.items()):
+        for (mode, std, native, vid, ph), ks in sorted(by_mode.items()):
             n = max(1, min(len(ks), (len(ks) + self.chunk_size - 1) // self.chunk_size))
             n = max(n, min(NCPU, len(ks) // 24)) if len(ks) >= 48 else n
             per = (len(ks) + n - 1) // n
+            var = variants.get(vid)
             for i in range(0, len(ks), per):
-                ch = Chunk(len(self.chunks) + len(chunks), ks[i:i + per], self.prelude, includes, self.workdir,
-                           std=std, mode=mode)
+                ch = Chunk(len(self.chunks) + len(chunks), ks[i:i + per], preludes[ph],
+                           var["includes"] if var else includes, self.workdir, std=std, mode=mode,
+                           inc_dirs=var.get("inc_dirs") if var else None)
                 ch.native = native
                 chunks.append(ch)
         return chunks
